@@ -36,3 +36,18 @@ Proof. now rewrite extend_struct_rs_take_root. Qed.
 Lemma extend_struct_rs_error (bs : element -> outcome (element * list event)) root e :
   bs (add_unique_child wrapper root) = Err e -> extend_struct_rs bs root = Err e.
 Proof. intros H. rewrite extend_struct_rs_take_root, H. reflexivity. Qed.
+
+Lemma entry_source_example :
+  let loop evs := fun r => build_struct (fuel_for evs) evs r [] in
+  let d1 := [EStart (ROk (s "a")) [AOk (ROk (s "k"))]; EText (ROk tt); EEnd] in
+  let d2 := [EStart (ROk (s "a")) []; EEmpty (ROk (s "b")) []; EEnd] in
+  (exists e, into_struct_rs (loop d1) = Ok e /\ ename e = s "a" /\ eattrs e = [(Mand, s "k")]
+             /\ exists e2, extend_struct_rs (loop d2) e = Ok e2 /\ eattrs e2 = [(Opt, s "k")]
+                           /\ List.length (echildren e2) = 1%nat
+                           /\ extend_struct_rs (loop [EErr 3 7]) e = Err (QuickXmlError 3 7))
+  /\ into_struct_rs (loop [EMisc]) = Err NoRootError.
+Proof.
+  vm_compute. split; [|reflexivity].
+  eexists. split; [reflexivity|]. split; [reflexivity|]. split; [reflexivity|].
+  eexists. repeat split.
+Qed.
